@@ -61,11 +61,14 @@ func (b *Bytes) View(start, end int64) (Blob, error) {
 	if start < 0 || start > int64(b.Len()) {
 		return nil, fmt.Errorf("Start index out of bounds: %d", start)
 	}
-	if end < 0 || end > int64(b.Len()) {
+	if end < start || end > int64(b.Len()) {
 		return nil, fmt.Errorf("End index out of bounds: %d", end)
 	}
 	b.mu.Lock()
 	defer b.mu.Unlock()
+	if end > int64(len(b.bytes)) {
+		return nil, fmt.Errorf("End index out of bounds: %d", end)
+	}
 	newB := NewBytes(b.bytes[start:end])
 	newB.mu = b.mu
 	return newB, nil
@@ -76,13 +79,16 @@ func (b *Bytes) Slice(start, end int64) (Blob, error) {
 	if start < 0 || start > int64(b.Len()) {
 		return nil, fmt.Errorf("Start index out of bounds: %d", start)
 	}
-	if end < 0 || end > int64(b.Len()) {
+	if end < start || end > int64(b.Len()) {
 		return nil, fmt.Errorf("End index out of bounds: %d", end)
 	}
 	buf := make([]byte, end-start)
 	b.mu.Lock()
+	defer b.mu.Unlock()
+	if end > int64(len(b.bytes)) {
+		return nil, fmt.Errorf("End index out of bounds: %d", end)
+	}
 	copy(buf, b.bytes[start:end])
-	b.mu.Unlock()
 	return NewBytes(buf), nil
 }
 
@@ -91,17 +97,23 @@ func (b *Bytes) Set(src Blob, destStart int64) (n int, err error) {
 	if destStart < 0 {
 		return 0, errors.New("negative offset")
 	}
-	if destStart >= int64(b.Len()) && destStart == 0 && src.Len() > 0 {
+	if destStart > int64(b.Len()) {
 		return 0, fmt.Errorf("Offset out of bounds: %d", destStart)
 	}
 	b.mu.Lock()
+	defer b.mu.Unlock()
+	if destStart > int64(len(b.bytes)) {
+		return 0, fmt.Errorf("Offset out of bounds: %d", destStart)
+	}
 	n = copy(b.bytes[destStart:], src.Bytes())
-	b.mu.Unlock()
 	return n, nil
 }
 
 // Grow implements Blob.
 func (b *Bytes) Grow(offset int64) error {
+	if offset < 0 {
+		return fmt.Errorf("Negative growth: %d", offset)
+	}
 	b.mu.Lock()
 	b.bytes = append(b.bytes, make([]byte, offset)...)
 	atomic.StoreInt64(&b.length, int64(len(b.bytes)))
@@ -111,6 +123,9 @@ func (b *Bytes) Grow(offset int64) error {
 
 // Truncate implements Blob.
 func (b *Bytes) Truncate(size int64) error {
+	if size < 0 {
+		return fmt.Errorf("Negative size: %d", size)
+	}
 	if int64(b.Len()) < size {
 		return nil
 	}
